@@ -21,6 +21,18 @@ MISSED = {
  "C07-m3": "no callback ever raised RecursionError; table entries that raise it were added (only that branch may become the sentinel)",
  "C01-m3": "no histogram had integer end points, as many faces as the integer span and a non-integer face inside; added such pseudo-ranges",
  "C03-m4": "roll counts never exceeded 2**53; pool dice now sometimes carry counts up to 2**70",
+ "C19-m4": "RollOutcome sources were lists; sources now also arrive as tuples, iterators, generators and filter objects (empty ones included)",
+ "C17-m3": "instances without a seed were never compared with each other; added unseeded / re-seeded-with-None instances and the module default drawing between a snapshot and its replay",
+ "C12-m3": "repeated selections never reached the number of outcomes while selecting fewer distinct ones (missed with the default seed, caught with others); added (-1,-1,-1), (0,1,0,1), (0,0,0) selectors + corpus entries",
+ "C12-m4": "the known-finding predicate K2 matched by symptom and swallowed the new records; K2 is now suppressed only for records the model itself predicts (the model reproduces K2, theorem C12_full_statement_refuted) + corpus entries with re-rolls from derived rollers",
+ "C11-m3": "no tree applied the same unary operator twice; added neg/neg, inv/inv (new ~ operator in the vocabulary) over multi-outcome sources + corpus entries",
+ "C13-m3": "every query built fresh objects, so per-instance caches lived for one query; added histories over a population of objects shared by all queries, hashing before any comparison (hasheq, set size, dict lookup, is_homogeneous) and definitional expectations",
+ "C13-m4": "same shared-population histories: == between representation twins followed by lowest_terms() of the right operand, answers compared with types",
+ "C14-m3": "mechanics were re-decorated for every call, hiding state kept by the decorator; each mechanic is now decorated once and reused, and a third of the C14 mechanics have branches that raise RecursionError",
+ "C14-m4": "injected exceptions were direct subclasses of Exception / BaseException; now user subclasses and plain instances of RuntimeError, NotImplementedError, StopIteration, KeyError, OverflowError, OSError, MemoryError, ... (this also exposed the genuine defect F8)",
+ "C15-m3": "no query read an outcome the histogram does not have; added read-only lookups of absent outcomes (get, [], in, exactly_k_times_in_n, appearances_in_rolls) on stored and derived histograms",
+ "C15-m4": "selectors and sources were tuples; selection rollers are now built from caller-owned lists (emptied afterwards) and one-shot iterables, then rolled",
+ "C16-m3": "histograms were built from mappings only; added construction from reversed pairs and from bare outcomes mixed with pairs (stored order not ascending)",
 }
 
 
@@ -33,6 +45,7 @@ def main():
         if sid in MISSED:
             m["strengthening"] = MISSED[sid]
         m["needs_to_manifest"] = m.get("note", "").strip()
+        m.setdefault("applies_to_commit", "f9d52fa (checked: also applies cleanly to d019088)")
         json.dump(m, open(d + "meta.json", "w"), indent=1)
         first = " ".join(m.get("note", "").split())[:150]
         rows.append((sid, ",".join(m["caught_by"]) or "-", "missed at first" if sid in MISSED else "caught", first))
